@@ -59,9 +59,12 @@ def cases(draw):
         how = 'self'
     else:
         fate = ['signal', draw(st.sampled_from(SIGS))]
-        how = draw(st.sampled_from(['self', 'self', 'kill'] + (['terminate', 'close'] if transport == 'pty' else [])))
+        how = draw(st.sampled_from(['self', 'self', 'kill'] + (['terminate', 'close', 'terminate-stubborn', 'close-stubborn']
+                                                               if transport == 'pty' else [])))
         if how in ('terminate', 'close'):
             fate = ['signal', 'HUP']
+        if how in ('terminate-stubborn', 'close-stubborn'):
+            fate = ['signal', 'KILL']        # the child ignores HUP and INT: only the forced stage ends it
     if transport == 'run':
         how = 'self'
     n = draw(st.integers(1, 5))
@@ -70,6 +73,8 @@ def cases(draw):
 
 
 def command(fate, how):
+    if how.endswith('-stubborn'):
+        return ['/bin/sh', '-c', "trap '' HUP INT; exec sleep 300"]
     if how != 'self':
         return ['/bin/sh', '-c', 'exec sleep 300']
     if fate[0] == 'exit':
@@ -136,22 +141,28 @@ def check_pty(case, col=None):
         if how == 'kill':
             with guard('kill'):
                 child.kill(int(getattr(signal, 'SIG' + fate[1])))
-        elif how == 'terminate':
+        elif how in ('terminate', 'terminate-stubborn'):
+            if how == 'terminate-stubborn':
+                time.sleep(0.05)         # let sh install the trap and exec
+                child.delayafterterminate = 0.1
             with guard('terminate(force=True)'):
                 r = child.terminate(force=True)
             if r is not True:
                 raise Violation('terminate-failed', 'terminate(force=True) returned %r on a sleeping child' % (r,))
-        elif how == 'close':
+        elif how in ('close', 'close-stubborn'):
+            if how == 'close-stubborn':
+                time.sleep(0.05)
+                child.ptyproc.delayafterterminate = 0.1
             with guard('close()'):
                 child.close()
             closed = True
         if how in ('self', 'kill'):
             if not wait_zombie(child.pid):
                 raise Violation('harness-child-did-not-die', 'the child %r is not a zombie after 10 s' % (cmd,))
-        observed = how in ('terminate', 'close')
+        observed = how in ('terminate', 'close', 'terminate-stubborn', 'close-stubborn')
         prev = None
         if observed:
-            judge(child, fate, 'after %s()' % how)
+            judge(child, fate, 'directly after %s() returned' % how.split('-')[0])
             prev = snapshot(child, True)
         ex, sg = truth(fate)
         for i, op in enumerate(case['history']):
